@@ -449,3 +449,24 @@ PROPS["C01"]["stages"].append(dict(name="short-transfers", driver="fault", flavo
                                    thorough=["--cfgs", "B1;B1,mmap=0;B1,mmap=0,snappy=1,bloom=1", "--len", "3", "--scripted", "1", "--wide", "1"]))
 PROPS["C01"]["rule"] += ("; short-transfer stage: for every read(2) and write(2) of every history (<= 2 -> 3 operations + scripted ones incl. reopen) one call transfers only 1, half or all-but-one of the bytes "
                          "asked for and NOTHING fails: every operation returns OK, every get returns the model value, and after close/kill + reopen every write is there")
+
+# C09 with one failed system call: every call still returns (sequential histories incl. manual compaction after the
+# failure, and every schedule of the concurrent scenarios x the schedule-independent fault sites)
+PROPS["C09"]["stages"].append(dict(name="fault-hang", driver="fault", flavour="asan", args=["--prop", "C09"], weight=0.4,
+                                   quick=["--cfgs", "B1", "--len", "2", "--scripted", "1"],
+                                   thorough=["--cfgs", "B1;B1,reuse=1", "--len", "3", "--scripted", "1", "--persistent", "1"]))
+PROPS["C09"]["stages"].append(dict(name="mc-fault", driver="mc", flavour="asan", args=["--prop", "C09", "--faults", MC_FAULTS], weight=0.5,
+                                   quick=["--scenarios", "D14,D1f,D3,D6,D9,D15", "--bound", "1", "--fault-ords", "3"],
+                                   thorough=["--scenarios", "D14,D1f,D3,D6,D9,D15,D7,D8", "--bound", "2", "--fault-ords", "4"]))
+PROPS["C09"]["rule"] += ("; fault stages: (a) every history (<= 2 -> 3 operations incl. flush, compact-all, reopen, + scripted) x every failing system call: the run completes (no call blocks forever once an error is latched); "
+                         "(b) every schedule within bound 1 -> 2 of 6 -> 8 concurrent scenarios x the n-th fsync/write on MANIFEST/log/table files failing once: no deadlock, no stuck call")
+PROPS["C09"]["assumptions"] = PROPS["C09"]["assumptions"] + FAULT_ASSUME
+
+# third prepared state: a reused write-ahead log whose tail lies 2-4 bytes before a 32 KiB block boundary
+BASE_LOGTAIL = "P1.5! O"   # written with sync: the preparation must be durable, its contents are expected in every image
+for _p, _cls in (("C02", 0x7f), ("C03", 0x02), ("C05", 0x7f)):
+    PROPS[_p]["stages"].append(dict(name="crash-reused-log-tail", driver="crash", flavour="asan", weight=0.3,
+                                    args=["--prop", _p, "--classes", str(_cls), "--base", BASE_LOGTAIL],
+                                    quick=["--cfgs", "B2,reuse=1", "--len", "1", "--nested", "0", "--scripted", "0"],
+                                    thorough=["--cfgs", "B2,reuse=1", "--len", "2", "--nested", "1", "--scripted", "0"]))
+    PROPS[_p]["rule"] += "; and (c) a reused write-ahead log that ends 2-4 bytes before a block boundary (no room for a record header)"
